@@ -149,6 +149,13 @@ CHECKS = {
              'provider and consumer; socket guard and lxml resolver spy record fetches; MDIB and subscription-table projections before/after. TLC judges status, body class, escapes, spins, expansion, no-op on reject.',
         note='Trusted: finite input classes (no byte-level fuzzing); in-memory socket; only the first response per connection is judged.',
         design_ref='6/C13'),
+    'C14': dict(
+        technique='TLA+ specs DiscoveryMatch.tla (RFC 3986 / strcmp0 scope matching and filter semantics over an abstract URI domain, laws as invariants) and Discovery.tla (operational node model: Hello/ProbeMatches/ResolveMatches/Bye/Probe/Resolve with repeating message ids, bounded id memory) checked by TLC; cases and behaviours executed on the real matching functions and a socket-less WSDiscovery; judged by TLC (DiscoveryMatchTrace / DiscoveryTrace)',
+        text='TLC enumerates URI pairs (case variants, percent-encoded variants, encoded slash, empty segments, trailing slash) and type lists, checks the algebraic laws of the reference, and '
+             'exhaustively model-checks the node (InvHighest, ActOnce, ProbeAnswer, ResolveAnswer, Remembered); simulated, tree and long behaviours (real id memory of 200) are replayed on a real '
+             'WSDiscovery + NetworkingThread (never started) with real SOAP datagrams; TLC judges every answer and table entry.',
+        note='Trusted: only rfc3986/default and strcmp0 rules are judged; announcements always carry AppSequence and EPR.',
+        design_ref='6/C14'),
 }
 
 NOT_YET = 'check not built yet in this round (see DESIGN.md section 10 build order); no claim made'
